@@ -742,7 +742,7 @@ func cmdSteps(args []string) {
 	case "api-thorough":
 		runExhaustive(e, st, "small", 4, quiet, only)
 		runExhaustive(e, st, "small", 4, []string{"sd", "sh", "sc", "tc", "th"}, only)
-		runExhaustive(e, st, "full", 3, all, only)
+		runExhaustive(e, st, "full", 3, []string{"nd", "nc", "nh"}, only)
 		runExhaustive(e, st, "full", 2, all, only)
 		runExhaustive(e, st, "full", 1, all, only)
 		runRandom(e, st, r, 6000, 60, false, all, only)
